@@ -360,7 +360,6 @@ fn eval_oneshot(sc: &Scenario, root: &Path, stats: &mut Stats, oracle: fn(&InvCt
                 if late > 0 {
                     *stats.probes.entry("request-delivered-to-completed-target".into()).or_insert(0) += late;
                 }
-                stats.sim_ticks += r.footer.as_ref().map(|f| f.clock.saturating_sub(inv.plan.clock_start)).unwrap_or(0);
                 if stats.sample.is_none() {
                     stats.sample = Some(sample_of(sc, inv, &r));
                 }
